@@ -3,3 +3,4 @@ import AuthProofs.Splitter
 import AuthProofs.Trigger
 import AuthProofs.CodeEquiv
 import AuthProofs.CodeEquivOidc
+import AuthProofs.StateInventory
